@@ -316,6 +316,12 @@ func c01Explore(src *choice.Src) *core.Result {
 		maxN = 16
 	}
 	n := src.Range(1, maxN)
+	if src.Bool(1, 30) {
+		// a log big enough for four-digit tile numbers at a low tile height (tile paths change shape at 1000)
+		sc.height = src.Range(1, 2)
+		n = 1000<<uint(sc.height) + src.Range(1, 60)
+		res.Probes["log-with-tile-number-1000"]++
+	}
 	sc.uni = buildUniverse("A", src.Intn(sw.PoolSize), n, uint64(src.Intn(3)))
 	sc.size0 = int64(src.Range(1, n))
 	if src.Bool(1, 2) {
